@@ -460,12 +460,12 @@ def atom_grid(ctx):
     fields = sorted(ATOM_FIELDS)
     for f, g in itertools.combinations(fields, 2):
         pairs = list(itertools.product(range(len(ATOM_FIELDS[f])), range(len(ATOM_FIELDS[g]))))
-        cap = 120 if ctx.quick else 4000
+        cap = 500 if ctx.quick else 4000
         if len(pairs) > cap:
             pairs = rng.sample(pairs, cap)
         for i, j in pairs:
             out.append({**ATOM_DEFAULT, f: ATOM_FIELDS[f][i], g: ATOM_FIELDS[g][j]})
-    for _ in range(1500 if ctx.quick else 20000):
+    for _ in range(6000 if ctx.quick else 30000):
         d = {f: rng.choice(v) for f, v in ATOM_FIELDS.items()}
         d['iso'] = rng.choice([None, None] + isotopes_of(d['z']))
         out.append(d)
@@ -527,12 +527,12 @@ def query_grid(ctx):
     fields = sorted(QUERY_FIELDS)
     for f, g in itertools.combinations(fields, 2):
         pairs = list(itertools.product(range(len(QUERY_FIELDS[f])), range(len(QUERY_FIELDS[g]))))
-        cap = 100 if ctx.quick else 3000
+        cap = 400 if ctx.quick else 3000
         if len(pairs) > cap:
             pairs = rng.sample(pairs, cap)
         for i, j in pairs:
             out.append({**QUERY_DEFAULT, f: QUERY_FIELDS[f][i], g: QUERY_FIELDS[g][j]})
-    for _ in range(1500 if ctx.quick else 20000):
+    for _ in range(6000 if ctx.quick else 30000):
         out.append({f: rng.choice(v) for f, v in QUERY_FIELDS.items()})
     return out
 
@@ -542,7 +542,7 @@ def molecules(ctx):
         return _state['mols']
     rng = ctx.rng
     mols = list(molgen.handmade())
-    mols += molgen.corpus(rng, 50 if ctx.quick else 700)
+    mols += molgen.corpus(rng, 150 if ctx.quick else 1500)
     extra = ['[Fe]', 'Cl[Fe](Cl)Cl', 'C[Pd]C', '[He]', 'C[Hg]C', '[13CH3]O', '[2H]C', 'C[N+](=O)[O-]', 'c1ccccc1[CH2] |^1:6|',
              'C1CC1C1CCC1', 'C1CCC2(CC1)CCCC2', 'C12C3C4C1C5C2C3C45', 'O=S(=O)(O)O', 'N#CC#N', 'C=C=C=C', 'c1ccc2[nH]ccc2c1',
              'C1CCCCCCCCCCCCC1', 'OC(=O)c1ccccc1O', '[Na+].[O-]c1ccccc1', 'C1=CC=C1', '[CH2]C=C |^1:0|', 'P(=O)(O)(O)O',
@@ -568,7 +568,7 @@ def molecules(ctx):
             mols.append((f'rings{i}', molgen.from_edges(molgen.ring_assembly(rng))))
         except Exception:
             continue
-    for name, m in list(mols[:20 if ctx.quick else 250]):
+    for name, m in list(mols[:60 if ctx.quick else 400]):
         try:
             r, _ = molgen.renumber(rng, m)
             mols.append((name + '/renum', r))
@@ -1012,7 +1012,7 @@ def mt_grids(ctx):
     rng = ctx.rng
     qg = query_grid(ctx)
     if ctx.quick:
-        qg = rng.sample(qg, min(len(qg), 2500))
+        qg = rng.sample(qg, min(len(qg), 9000))
     out = []
     # element part: any-metal and any-element against every element; every element query against itself and its neighbours
     for z in range(1, 119):
@@ -1127,15 +1127,15 @@ def correspond(ctx):
     qs = [(s, q) for s, q in qs if q is not None]
     mols = molecules(ctx)
     small = [(n, m) for n, m in mols if 2 <= len(m) <= 40]
-    for i in range(150 if ctx.quick else 2500):
+    for i in range(600 if ctx.quick else 4000):
         n, m = rng.choice(small)
         qs.append((f'cut{i}({n})', cut_pattern(rng, m, rng.randint(2, min(10, len(m))))))
     stream_ec(ctx, qs)
     stream_mt(ctx)
     if ctx.quick:
-        pairs = pair_stream(ctx, 900, 500, 120)
+        pairs = pair_stream(ctx, 3000, 2400, 500)
     else:
-        pairs = pair_stream(ctx, 12000, 8000, 1500)
+        pairs = pair_stream(ctx, 20000, 16000, 3000)
     stream_gm(ctx, pairs)
     ctx.exhaustive = False
     shape = _state.get('layout', {}).get('shape_changed')
